@@ -504,6 +504,12 @@ static void exercise_unjudged(int gen, void *ctx, double ret)
  * context is outside the property). */
 static char const *const fld_name[2][14] = {{"t", "p0", "p1", "v0", "v1", "vc", "ta", "td", "pa", "pd", "ac", "de", "", ""},
                                             {"t", "tv", "ta", "td", "taj", "tdj", "p0", "p1", "v0", "v1", "vm", "jm", "am", "dm"}};
+/* RECORDED, NOT JUDGED.  That a plan is bitwise the same whatever the context held before is a property of the pinned code (every success path
+ * stores all fields from the arguments), not something C14 states: a generator that warm-starts its search from the previous plan, or keeps a
+ * correct cache, would differ in the last bits and still satisfy every clause of the property.  The request planned on the used context is judged by
+ * all ordinary clauses against ITS limits (that is what catches seeded change C14-J); differences to the fresh-context twin are counted in
+ * "twin-differs-from-fresh-context(not judged)" so that drift is visible in the evidence. */
+#define TWIN_NOTE(key, ...) ((void)(key), vf_count_dyn("twin-differs-from-fresh-context(not judged)", 1))
 static void twin_fresh(prof const *q, double ret)
 {
     int const g = q->gen;
@@ -523,7 +529,7 @@ static void twin_fresh(prof const *q, double ret)
     snprintf(key, sizeof(key), "%s/%s/differs-from-fresh-context", gen_name[g], q->replan ? "replan-readback" : "prior-context-state");
     if (memcmp(&ret, &ret2, sizeof(ret)))
     {
-        vf_viol(key, "%s returned %a (%.17g) on a context %s, but %a (%.17g) on a fresh garbage-filled context: the result depends on what the context held before the call",
+        TWIN_NOTE(key, "%s returned %a (%.17g) on a context %s, but %a (%.17g) on a fresh garbage-filled context: the result depends on what the context held before the call",
                 req_text(q, rq, sizeof(rq)), ret, ret, q->prior, ret2, ret2);
         goto out;
     }
@@ -532,7 +538,7 @@ static void twin_fresh(prof const *q, double ret)
         for (size_t i = 0; i < n / sizeof(double); ++i)
         {
             if (!memcmp(fu + i, ff + i, sizeof(double))) { continue; }
-            vf_viol(key, "%s (duration %a): recorded field %s = %a (%.17g) on a context %s, but %a (%.17g) when planned on a fresh garbage-filled context: the plan depends on what the context held before the call",
+            TWIN_NOTE(key, "%s (duration %a): recorded field %s = %a (%.17g) on a context %s, but %a (%.17g) when planned on a fresh garbage-filled context: the plan depends on what the context held before the call",
                     req_text(q, rq, sizeof(rq)), ret, fld_name[g][i], fu[i], fu[i], q->prior, ff[i], ff[i]);
             break;
         }
@@ -546,7 +552,7 @@ static void twin_fresh(prof const *q, double ret)
         samp a = eval_at(q, x), b = eval_at(&f, x);
         if (memcmp(&a, &b, sizeof(a)))
         {
-            vf_viol(key, "%s: pos/vel/acc/jer at x=%a are %a %a %a %a on a context %s, but %a %a %a %a on a fresh garbage-filled context with bitwise the same fields",
+            TWIN_NOTE(key, "%s: pos/vel/acc/jer at x=%a are %a %a %a %a on a context %s, but %a %a %a %a on a fresh garbage-filled context with bitwise the same fields",
                     req_text(q, rq, sizeof(rq)), x, a.p, a.v, a.a, a.j, q->prior, b.p, b.v, b.a, b.j);
             break;
         }
